@@ -113,6 +113,13 @@ def generate(g, tier):
                  dict(op='compile_file', compiler='K', opts=o, dir='s1', file='proj/main.txt', files={'proj/main.txt': t}, cfgs={'proj': proj}),
                  dict(op='compile', compiler='K', opts=o, dir='s2', src=dict(text=t)),
                  dict(op='compile_file', compiler='K', opts=o, dir='s3', file='other/main.txt', files={'other/main.txt': t})]
+        if g.chance(0.6):
+            # the caller gives the SAME Compiler object other options (assigns its compile_options) and compiles again, from a string
+            # and from a file: both entry points follow the options the object has now
+            o2 = dict(include_comments=not o['include_comments'], flipper_commands=r.choice([True, False]), supress_command_not_exist=r.choice([True, False]), stack_limit=20)
+            steps += [dict(op='compile', compiler='K', opts=o2, reassign=True, dir='s4', src=dict(text=t)),
+                      dict(op='compile_file', compiler='K', opts=o2, reassign=True, dir='s5', file='third/main.txt', files={'third/main.txt': t}),
+                      dict(op='compile', compiler='K', opts=o2, reassign=True, dir='s6', src=dict(lines=t.split('\n')))]
         cases.append(dict(op='history', steps=steps, meta=dict(family='entry-history', nocorr=True)))
     # one compilation, one set of options: a config.yaml lying in the folder of an IMPORTED file (or in any folder other than the
     # entry file's) is not consulted — whatever it says, however the import is reached
